@@ -266,7 +266,11 @@ func corpusCLI(r *core.Run, t *Tree) {
 			c.Expect = hex.EncodeToString(want)
 		}
 	}
-	c.Args = []string{"-d", t.Case.Format, expr, "in.bin"}
+	c.Args = []string{"-d", t.Case.Format}
+	for _, k := range sortedKeys(t.Case.Opts) {
+		c.Args = append(c.Args, "-o", fmt.Sprintf("%s=%v", k, t.Case.Opts[k]))
+	}
+	c.Args = append(c.Args, expr, "in.bin")
 	checkStdout(r, "cli:corpus:raw-stdout:"+t.Case.Format, t.Case.String(), c, t.Data, want)
 }
 
